@@ -5,7 +5,10 @@
 //
 //	container  rb | tm | ts
 //	comparator asc | desc | half | str     (str: keys are order-isomorphic strings, strings.Compare)
-//	stride     the full state (keys, values, shape) is observed after every <stride>-th op and the last one
+//	stride     the full state (keys, values, shape) is observed after every <stride>-th op and the last one;
+//	           or "m:<bits>" (sparse observation): one bit per op, the full-state observers AND Size()/Len()
+//	           are called only after the ops whose bit is 1 (nothing is called on the container in between,
+//	           so a stale cache that every-step observation would keep fresh becomes visible)
 //	op         rb: a,k,v (Add) d,k (Delete) f,k (Find) s,k,v (Set)
 //	           tm: p,k,v (Put) g,k (Get)    d,k (Delete)
 //	           ts: a,k   (Add) d,k (Delete) e,k (Exist)
@@ -106,9 +109,11 @@ func Main(args []string) {
 			if len(f) < 3 {
 				fmt.Fprintln(w, "badcase")
 			} else {
-				stride, _ := strconv.Atoi(f[2])
-				if stride < 1 {
-					stride = 1
+				stride := obsPlan{n: 1}
+				if strings.HasPrefix(f[2], "m:") {
+					stride = obsPlan{mask: f[2][2:], sparse: true}
+				} else if n, _ := strconv.Atoi(f[2]); n > 1 {
+					stride.n = n
 				}
 				switch f[1] {
 				case "asc":
@@ -238,7 +243,21 @@ func valOrAbsent(v int, ok bool) string {
 	return "absent"
 }
 
-func run[K any](out *bufio.Writer, cont string, kk keyKind[K], stride int, ops []string) {
+// obsPlan says after which ops the full state is observed.
+type obsPlan struct {
+	n      int    // every n-th op and the last one (stride form)
+	mask   string // one '0'/'1' per op (sparse form)
+	sparse bool
+}
+
+func (p obsPlan) observe(i, total int) bool {
+	if p.sparse {
+		return i < len(p.mask) && p.mask[i] == '1'
+	}
+	return (i+1)%p.n == 0 || i == total-1
+}
+
+func run[K any](out *bufio.Writer, cont string, kk keyKind[K], stride obsPlan, ops []string) {
 	w := &strings.Builder{}
 	defer func() {
 		out.WriteString(w.String())
@@ -264,8 +283,8 @@ func run[K any](out *bufio.Writer, cont string, kk keyKind[K], stride int, ops [
 		if len(p) > 2 {
 			v, _ = strconv.Atoi(p[2])
 		}
-		observe := (i+1)%stride == 0 || i == len(ops)-1
-		rec, panicked := step(b, kk, p[0], k, v, observe, &calls)
+		observe := stride.observe(i, len(ops))
+		rec, panicked := step(b, kk, p[0], k, v, observe, stride.sparse, &calls)
 		w.WriteString(rec)
 		if panicked {
 			break // the container may be half-updated; the rest of the history is meaningless
@@ -274,7 +293,7 @@ func run[K any](out *bufio.Writer, cont string, kk keyKind[K], stride int, ops [
 	w.WriteByte('\n')
 }
 
-func step[K any](b *box[K], kk keyKind[K], op string, k, v int, observe bool, calls *int) (rec string, panicked bool) {
+func step[K any](b *box[K], kk keyKind[K], op string, k, v int, observe, sparse bool, calls *int) (rec string, panicked bool) {
 	defer func() {
 		if r := recover(); r != nil {
 			rec, panicked = "panic;-;~;~;~;-;~;-", true
@@ -288,7 +307,11 @@ func step[K any](b *box[K], kk keyKind[K], op string, k, v int, observe bool, ca
 	var sb strings.Builder
 	sb.WriteString(ret)
 	sb.WriteByte(';')
-	sb.WriteString(b.length())
+	if observe || !sparse {
+		sb.WriteString(b.length())
+	} else {
+		sb.WriteByte('~') // sparse form: not even Size()/Len() is called between observations
+	}
 	if observe {
 		shape, size, bad := b.dump()
 		if strings.Contains(shape, "!CYCLE") {
